@@ -23,8 +23,7 @@ Proof. exact direct_done_sound. Qed.
    command's ready queue and spawn queue are both empty (so "nothing more can happen" is judged on a
    state in which every woken task has been polled), for every fuel, heap and command id. *)
 Theorem C07_settled_queues_empty : forall fuel cid H H',
-  cid < length (cmds H) ->
-  settle fuel cid H = Some H' -> was_aborted cid H' = false ->
+  was_aborted cid H = false -> settle fuel cid H = Some H' ->
   c_ready (gcmd cid H') = [] /\ c_spawnq (gcmd cid H') = [].
 Proof. exact settle_quiescent. Qed.
 
